@@ -234,6 +234,170 @@ def run_controlled(plan, losses, script, schedule, *, agent_kind="scripted", see
         threads.restore_module()
 
 
+# ------------------------------------------------------------------------------------------------
+# free-running execution: real queue.Queue, real threading.Thread, per-thread logs, no controller
+# ------------------------------------------------------------------------------------------------
+def run_free(plan, losses, script, *, agent_kind="scripted", seed=0, jitter=0):
+    import queue
+    import sys
+    import time
+
+    from black_it.samplers.halton import HaltonSampler
+    from black_it.samplers.random_uniform import RandomUniformSampler
+    from black_it.schedulers.rl.envs.mab import MABCalibrationEnv
+    from black_it.schedulers.rl.rl_scheduler import RLScheduler
+
+    logs = {"cal": [], "agent": []}
+    ghost = {"cid": 0, "batch": 0}
+    jr = random.Random(jitter)
+    cal_ident = threading.get_ident()
+
+    def who():
+        return "cal" if threading.get_ident() == cal_ident else "agent"
+
+    def nap():
+        if jitter and jr.random() < 0.3:
+            time.sleep(jr.choice([0, 0, 1e-4, 1e-3]))
+
+    class LogQueue(queue.Queue):
+        def __init__(self, name):
+            super().__init__()
+            self.qname = name
+
+        def put(self, x, block=True, timeout=None):
+            nap()
+            if self.qname == "act":
+                g = {"cid": ghost["cid"], "a": int(x)}
+                logs[who()].append({"e": "put", **g})
+            elif x is None:
+                g = {"kind": "end"}
+                logs[who()].append({"e": "end"})
+            else:
+                g = {"kind": "out", "batch": ghost["batch"], "best": threads._scaled(x[1])}  # noqa: SLF001
+                logs[who()].append({"e": "out", "batch": g["batch"], "best": g["best"]})
+            super().put((x, g), block, timeout)      # the event is logged BEFORE the message becomes visible to the other thread
+
+        def get(self, block=True, timeout=None):
+            nap()
+            x, g = super().get(block, timeout)
+            if self.qname == "act":
+                ghost["got"] = g
+            else:
+                logs[who()].append({"e": "rcv", "kind": g["kind"], "batch": g.get("batch", -1)})
+            return x
+
+        def get_nowait(self):
+            x, g = super().get(False)
+            ghost["drained"] = ghost.get("drained", 0) + 1
+            return x
+
+    class Shim:
+        events = logs
+    ctl = type("L", (), {"ghost": ghost, "log": staticmethod(lambda ev: logs[who()].append(ev))})()
+    samplers = [HaltonSampler(batch_size=1), RandomUniformSampler(batch_size=1), RandomUniformSampler(batch_size=2)]
+    agent = make_agent(agent_kind, script, len(samplers), ctl, seed)
+    env = MABCalibrationEnv(nb_samplers=len(samplers))
+    env._out_queue = LogQueue("act")   # noqa: SLF001
+    env._in_queue = LogQueue("out")    # noqa: SLF001
+    old_si = sys.getswitchinterval()
+    sys.setswitchinterval(1e-5 if jitter else old_si)
+    try:
+        with quiet():
+            sched = RLScheduler(samplers, agent=agent, env=env, random_state=seed)
+        orig_train = sched._train  # noqa: SLF001
+
+        def train():
+            try:
+                orig_train()
+            finally:
+                logs["agent"].append({"e": "exit"})
+        sched._train = train  # noqa: SLF001
+        b = 0
+        watchdog = threading.Timer(60.0, lambda: None)
+        for n in plan:
+            logs["cal"].append({"e": "sess"})
+            with sched.session():
+                logs["cal"].append({"e": "tstart"})
+                for _ in range(n):
+                    ghost["batch"] = b
+                    ghost.pop("got", None)
+                    smp = sched.get_next_sampler()
+                    idx = [i for i, x in enumerate(sched.samplers) if x is smp][0]
+                    g = ghost.pop("got", None)
+                    if g is not None:
+                        logs["cal"].append({"e": "get", "cid": g["cid"], "a": g["a"], "batch": b, "sampler": idx})
+                    mark = len(logs["cal"])
+                    nap()
+                    sched.update(b, np.array([[float(b)]]), np.array([float(losses[b])]), None)
+                    if not any(e["e"] == "out" for e in logs["cal"][mark:]):
+                        logs["cal"].append({"e": "boot", "batch": b, "best": int(losses[b])})
+                    b += 1
+            logs["cal"].append({"e": "join"})
+            dr = ghost.pop("drained", 0)
+            if dr:
+                logs["cal"].append({"e": "drain", "n": dr})
+            alive = any(t.is_alive() and t is not threading.current_thread() and not t.daemon and t.name.startswith("Thread")
+                        for t in threading.enumerate())
+            logs["cal"].append({"e": "idle", "actq": env._out_queue.qsize(), "outq": env._in_queue.qsize(), "alive": bool(alive)})  # noqa: SLF001
+        del watchdog
+    finally:
+        sys.setswitchinterval(old_si)
+    return {"cal": logs["cal"], "agent": logs["agent"], "script": list(script) if agent_kind == "scripted" else [-1], "plan": plan,
+            "losses": [int(x) for x in losses], "agent_kind": agent_kind, "seed": seed, "jitter": jitter}
+
+
+def _free_worker(args):
+    import os
+
+    jobs, repo = args
+    os.environ["VERIF_REPO"] = repo
+    from . import common
+
+    common.use_repo()
+    out = []
+    for j in jobs:
+        try:
+            out.append(run_free(j["plan"], j["losses"], j["script"], agent_kind=j["agent"], seed=j["seed"], jitter=j["jitter"]))
+        except Exception as e:  # noqa: BLE001
+            out.append({"cal": [{"e": "cal-crash", "what": repr(e)[:200]}], "agent": [], "script": [-1], **{k: j[k] for k in ("plan", "losses", "seed", "jitter")},
+                        "agent_kind": j["agent"]})
+    return out
+
+
+def free_runs(n: int, rng: random.Random):
+    """free-running executions in worker processes (a deadlock there must not hang the check: hard time limit per worker)"""
+    import multiprocessing as mp
+
+    from .common import REPO
+
+    jobs = []
+    for i in range(n):
+        plan = [rng.randint(0, 3) for _ in range(rng.randint(1, 3))]
+        jobs.append({"plan": plan, "losses": losses_for(sum(plan), rng), "script": [0, 1, 0, 2][:rng.randint(2, 4)],
+                     "agent": "scripted" if i % 4 else "eps", "seed": rng.randrange(10**6), "jitter": rng.randrange(1, 10**6) if i % 3 else 0})
+    procs = 8
+    chunks = [jobs[i::procs] for i in range(procs)]
+    ctx = mp.get_context("spawn")
+    with ctx.Pool(procs) as pool:
+        import time as _t
+
+        asyncs = [pool.apply_async(_free_worker, ((c, str(REPO)),)) for c in chunks]
+        parts = []
+        deadline = _t.time() + 150          # one shared limit: a deadlocked execution blocks its worker for good
+        for c, a in zip(chunks, asyncs):
+            try:
+                parts.append(a.get(timeout=max(1.0, deadline - _t.time())))
+            except mp.TimeoutError:
+                parts.append([{"cal": [{"e": "deadlock"}], "agent": [], "script": [-1], "plan": j["plan"], "losses": j["losses"],
+                               "seed": j["seed"], "jitter": j["jitter"], "agent_kind": j["agent"]} for j in c])
+        pool.terminate()
+    res = [None] * len(jobs)
+    for ci, part in enumerate(parts):
+        for k, r in enumerate(part):
+            res[ci + k * procs] = r
+    return res
+
+
 def losses_for(nb: int, rng: random.Random) -> list[int]:
     """best-new-loss per batch over powers of two (exact float arithmetic): improving and non-improving steps"""
     cur, out = 2**12, []
@@ -297,6 +461,21 @@ def run(tier: str) -> int:
                       "random_walks": n_walks, "schedules_replayed_exactly": exact_n, "schedules_diverged": len(runs) - exact_n,
                       "graph_edges_visited_by_real_executions": len(covered),
                       "graph_states_visited_by_real_executions": len({s for s, _, _ in covered} | {d for _, d, _ in covered})})
+    # ---- free-running executions (real Queue / Thread, per-thread logs): TLC infers the interleaving ----
+    free = free_runs(120 if tier == "quick" else 1500, rng)
+    fdoc = [{"cal": [_tl(e) for e in r["cal"]], "agent": [_tl(e) for e in r["agent"]], "script": r["script"], "ref": [-1]} for r in free]
+    fres = tlc.validate_parallel("RLExchangeFree", "RLExchangeFree.cfg", fdoc, parts=8)
+    chk.add_validation(fres)
+    chk.extra["free_running_executions"] = len(free)
+    chk.extra["free_running_with_seeded_yields"] = sum(1 for r in free if r["jitter"])
+    for tid, why in fres["rejected"].items():
+        r = free[tid - 1]
+        dead = any(e["e"] == "deadlock" for e in r["cal"])
+        chk.violation("free:" + ("deadlock" if dead else "no-consistent-interleaving"),
+                      f"free-running execution (sessions {r['plan']}, agent {r['agent_kind']}): "
+                      + ("did not finish (deadlock)" if dead else f"no interleaving of the two threads' events satisfies the specification (stuck at {why['why']})"),
+                      {"plan": r["plan"], "losses": r["losses"], "script": r["script"], "agent": r["agent_kind"], "seed": r["seed"],
+                       "jitter": r["jitter"], "cal": r["cal"], "agent_events": r["agent"], "tlc": why, "free": True})
     return _validate(chk, runs, "every edge of the TLC state graph of the repaired protocol (3 sessions x 0-3 batches) covered by a "
                      "path set + seeded random walks, each replayed as a thread schedule on the real RLScheduler/MABCalibrationEnv "
                      "(scripted, greedy and epsilon-greedy agents, improving/non-improving losses) under the cooperative controller; "
